@@ -4,7 +4,7 @@
    is malformed, has a duplicate or an external reference, and the objects on
    or depending on a dependency cycle. *)
 From Coq Require Import List NArith ZArith.
-From CliUtils Require Import Model.PipelineTypes Model.Pipeline Proofs.PipelineBase Proofs.PipelineAuth.
+From CliUtils Require Import Model.PipelineTypes Model.Pipeline Corr.CorrPipeline Proofs.PipelineBase Proofs.PipelineAuth.
 Import ListNotations.
 
 Definition req_names (r : req) (i : id) : Prop :=
@@ -40,9 +40,9 @@ Qed.
 
 (* each invalid object is named by a validation error of the plan (which the
    run emits as validation events under skip-invalid, see C13_grammar) *)
-Theorem C11_named : forall sc locals pobjs i,
-  In i (pl_invalid (build_plan sc locals pobjs)) ->
-  exists e, In e (pl_valerrs (build_plan sc locals pobjs)) /\ In i e.
+Theorem C11_named : forall sc known locals pobjs i,
+  In i (pl_invalid (build_plan sc known locals pobjs)) ->
+  exists e, In e (pl_valerrs (build_plan sc known locals pobjs)) /\ In i e.
 Proof. exact invalid_named. Qed.
 
 (* exit-early: the run ends with the error before any request is made *)
@@ -70,6 +70,47 @@ Example C11_nonvacuous :
   end.
 Proof. vm_compute. split; reflexivity. Qed.
 
+(* dynamic type knowledge: object 0 is a CRD, object 1 a custom resource of the kind it defines; the cluster
+   is empty (the RESTMapper does not know the kind).  `known` of C11_named is the set of CRDs the mapper
+   knows when the plan is built.
+   (a) CRD and custom resource in one apply set: the custom resource is valid (its CRD is among the manifests),
+       depends on the CRD; the CRD is created, its wait ends Successful, the mapper is reset, the custom
+       resource is created;
+   (b) the create of the CRD is rejected: its wait is skipped, the mapper is not reset, the custom resource
+       gets ApplyFailed WITHOUT any request for it;
+   (c) the custom resource alone: its type is unknown, it is invalid, named by a validation error, never
+       sent and not added to the inventory. *)
+Definition C11_dyn_items (t : list item) : list (req * bool + evt) :=
+  flat_map (fun it => match it with
+                      | IReq r ok _ _ => [inl (r, ok)]
+                      | IEv (EApply g i a) => [inr (EApply g i a)]
+                      | IEv (EValidation l) => [inr (EValidation l)]
+                      | IEv (EWait g i w) => [inr (EWait g i w)]
+                      | _ => [] end) t.
+Example C11_nonvacuous_dynamic_kinds :
+  let univ := [mkU KCrd None None; mkU KPlain None (Some 0)] in
+  let o := mkO false true PMustMatch DNone VSkipInvalid false false false false PropBackground false in
+  let ws := [mkW [mkS 0 SCurrent true 0%N 2%Z] WCancel; mkW [mkS 1 SCurrent true 0%N 2%Z] WCancel] in
+  let both := [mkL 0 [] false false false 1; mkL 1 [] false false false 1] in
+  let sca := mkSc univ None both o (mkE [] ws CNever None) in
+  let scb := mkSc univ None both o (mkE [FApply 0] ws CNever None) in
+  let scc := mkSc univ None [mkL 1 [] false false false 1] o (mkE [] ws CNever None) in
+  let c0 := mkCl [] None 1%N in
+  option_map (fun p => (pl_invalid (fst p), g_deps (pl_graph (fst p)) 1)) (run_plan sca c0) = Some ([], [0]) /\
+  C11_dyn_items (out_trace (run sca c0)) =
+    [inl (RInvCreate [0; 1], true); inl (RCreate 0 false, true); inr (EApply (GApply, 0) 0 AOk);
+     inr (EWait (GWait, 0) 0 WPending); inr (EWait (GWait, 0) 0 WOk);
+     inl (RCreate 1 false, true); inr (EApply (GApply, 1) 1 AOk);
+     inr (EWait (GWait, 1) 1 WPending); inr (EWait (GWait, 1) 1 WOk)] /\
+  C11_dyn_items (out_trace (run scb c0)) =
+    [inl (RInvCreate [0; 1], true); inl (RCreate 0 false, false); inr (EApply (GApply, 0) 0 AFail);
+     inr (EWait (GWait, 0) 0 WSkipped); inr (EApply (GApply, 1) 1 AFail); inr (EWait (GWait, 1) 1 WSkipped);
+     inl (RInvUpdate [], true)] /\
+  option_map (fun p => (pl_invalid (fst p), pl_valerrs (fst p))) (run_plan scc c0) = Some ([1], [[1]]) /\
+  C11_dyn_items (out_trace (run scc c0)) = [inr (EValidation [1]); inl (RInvCreate [], true)] /\
+  mon_C11 sca c0 (run sca c0) = true /\ mon_C11 scb c0 (run scb c0) = true /\ mon_C11 scc c0 (run scc c0) = true.
+Proof. vm_compute. repeat split; reflexivity. Qed.
+
 Print Assumptions C11_never_sent.
 Print Assumptions C11_not_added.
 Print Assumptions C11_named.
@@ -83,7 +124,7 @@ Print Assumptions C11_tracked_invalid_retained.
    before; under exit-early the run ends with the error before any request; under skip-invalid
    every invalid id is named by a validation event and, when the run ends without error outside
    dry-run, tracked invalid ids are still in the final inventory.  No hypothesis. *)
-From CliUtils Require Import Corr.CorrPipeline Proofs.PipelineMonC11.
+From CliUtils Require Import Proofs.PipelineMonC11.
 
 Theorem C11_monitor : forall sc c0, mon_C11 sc c0 (run sc c0) = true.
 Proof. exact monitor_C11. Qed.
